@@ -325,7 +325,8 @@ def run_engine(prop, tier, seed, extra_args=None):
 
 
 FUZZ_TARGET = {"C01": "comb", "C02": "comb", "C03": "comb", "C05": "comb", "C07": "comb", "C08": "comb", "C09": "comb", "C11": "comb",
-               "C12": "comb", "C16": "comb", "C20": "comb", "C13": "co", "C14": "co", "C15": "co"}
+               "C12": "comb", "C16": "comb", "C20": "comb", "C13": "co", "C14": "co", "C15": "co",
+               "C04": "comb", "C06": "comb", "C10": "comb", "C17": "comb", "C19": "comb"}
 
 
 def fuzz_supplement(prop, seed):
